@@ -354,3 +354,143 @@ Proof.
   - rewrite port_holds_f_model. destruct (reaches st hs d); [reflexivity|]. cbn [orb]. exact Hbase.
   - exact Hbase.
 Qed.
+
+(* ================= source port 0: the current code (D22 repaired) ================= *)
+(* for EVERY datagram from EVERY source: an injected fault that is reached is the result; otherwise the
+   specified reaction is performed; nothing is ever sent to port 0, so the only exception that can still
+   escape is the OSError of a reply to an ordinary requester that the environment does not let through *)
+Theorem process_request_v_spec f port0 sendable hs d :
+  process_request_v pcurrent f port0 sendable hs d =
+  faulted f (fun st => reaches_v st port0 hs d) (deliver (sendable || port0) (port_spec_v port0 hs d)).
+Proof.
+  unfold process_request_v, port_spec_v, reaches_v. cbn [replies_to_port0 pcurrent negb andb].
+  destruct port0; cbn [andb negb].
+  - rewrite log_then, orb_true_r. reflexivity.
+  - rewrite process_request_f_spec, andb_true_r, orb_false_r. reflexivity.
+Qed.
+
+Theorem serve_one_v_spec f port0 sendable hs d :
+  serve_one_v pcurrent f port0 sendable hs d = expected_obs f port0 sendable hs d.
+Proof.
+  unfold serve_one_v, expected_obs. rewrite process_request_v_spec. cbv zeta.
+  assert (H : match deliver (sendable || port0) (port_spec_v port0 hs d) with Ok a => a | Exc _ done => done ++ [ALogExc] end =
+              port_spec_v port0 hs d ++ (if negb sendable && existsb is_send (port_spec_v port0 hs d) then [ALogExc] else [])).
+  { unfold deliver, port_spec_v. destruct port0; [rewrite orb_true_r; destruct sendable; reflexivity|].
+    rewrite orb_false_r. destruct sendable; cbn [orb negb andb]; [now rewrite List.app_nil_r|].
+    destruct (existsb is_send (port_spec hs d)); cbn [negb]; [reflexivity|now rewrite List.app_nil_r]. }
+  destruct f as [[st e]|]; cbn [faulted]; [destruct (reaches_v st port0 hs d); [reflexivity|]|]; exact H.
+Qed.
+
+Lemma port_spec_v_ok port0 hs d : reaction_ok hs d (port_spec_v port0 hs d).
+Proof. unfold port_spec_v. destruct port0; [constructor|apply port_spec_ok]. Qed.
+
+(* without environment faults: nothing, one ERROR (1, 2 or 4) or one transfer start; never a logged
+   exception; and for source port 0 nothing at all, whatever the bytes and whatever else is the matter *)
+Theorem request_port_total_v port0 hs d :
+  exists acts, process_request_v pcurrent None port0 true hs d = Ok acts /\
+               serve_one_v pcurrent None port0 true hs d = acts /\ reaction_ok hs d acts /\ (port0 = true -> acts = []).
+Proof.
+  exists (port_spec_v port0 hs d). rewrite process_request_v_spec, serve_one_v_spec. unfold expected_obs. cbn [faulted negb andb orb].
+  rewrite List.app_nil_r. split; [unfold deliver; reflexivity|]. split; [reflexivity|]. split; [apply port_spec_v_ok|].
+  intros ->. reflexivity.
+Qed.
+
+Theorem port0_no_reaction f sendable hs d :
+  serve_one_v pcurrent f true sendable hs d =
+  match f with Some (SLog, _) => [ALogExc] | _ => [] end.
+Proof.
+  rewrite serve_one_v_spec. unfold expected_obs, port_spec_v, reaches_v. cbn [existsb andb app].
+  rewrite andb_false_r. destruct f as [[[] e]|]; reflexivity.
+Qed.
+
+Theorem run_loop_v_total hs reqs :
+  run_loop_v pcurrent catch_all hs reqs =
+  map (fun r => serve_one_v pcurrent (fst (fst r)) (fst (snd (fst r))) (snd (snd (fst r))) hs
+                            (firstn MAX_REQUEST_PACKET_SIZE (snd r))) reqs.
+Proof.
+  induction reqs as [|[[f [p0 s]] d] r IH]; [reflexivity|]. cbn [run_loop_v map fst snd]. unfold serve_one_v.
+  destruct (process_request_v pcurrent f p0 s hs (firstn MAX_REQUEST_PACKET_SIZE d)) as [a|e done]; now rewrite IH.
+Qed.
+
+(* the checker accepts the model of the current code for EVERY case - source port 0 included, no exemption *)
+Lemma reaches_v_log port0 hs d : reaches_v SLog port0 hs d = true.
+Proof. unfold reaches_v. destruct port0; [reflexivity|apply reaches_log]. Qed.
+
+Theorem port_check_model f port0 sendable hs d :
+  port_check f port0 sendable hs d (serve_one_v pcurrent f port0 sendable hs d) = [].
+Proof.
+  rewrite serve_one_v_spec.
+  assert (Hgen : (if env_fault_effective f port0 sendable hs d then
+        (if existsb is_dead (expected_obs f port0 sendable hs d) then ["C09:port_stops_serving"%string] else []) ++
+        (if actions_eqb (filter (fun a => negb (is_dead a)) (expected_obs f port0 sendable hs d)) (expected_obs f port0 sendable hs d)
+         then [] else ["C09:port_fault_reaction"%string])
+      else
+        (if existsb is_log (expected_obs f port0 sendable hs d) then ["C09:internal_error_path"%string] else []) ++
+        (if existsb is_dead (expected_obs f port0 sendable hs d) then ["C09:port_stops_serving"%string] else []) ++
+        (if (2 <=? length (filter (fun a => negb (is_log a)) (filter (fun a => negb (is_dead a)) (expected_obs f port0 sendable hs d))))%nat
+         then ["C09:port_more_than_one_reaction"%string] else []) ++
+        (if actions_eqb (filter (fun a => negb (is_log a)) (filter (fun a => negb (is_dead a)) (expected_obs f port0 sendable hs d)))
+                        (port_spec_v port0 hs d) then [] else ["C09:port_reaction"%string])) = []).
+  { destruct (env_fault_effective f port0 sendable hs d) eqn:Eenv.
+    - assert (Hnd : forall l, existsb is_dead l = false -> filter (fun a => negb (is_dead a)) l = l).
+      { induction l as [|x l IH]; [reflexivity|]. cbn [existsb filter]. intros H. apply orb_false_iff in H as [A B].
+        rewrite A. cbn [negb]. now rewrite IH. }
+      assert (Hd : existsb is_dead (expected_obs f port0 sendable hs d) = false).
+      { unfold expected_obs. pose proof (port_spec_v_ok port0 hs d) as H. cbv zeta.
+        destruct f as [[st e]|]; [destruct (reaches_v st port0 hs d); [reflexivity|]|];
+          inversion H; destruct (negb sendable); reflexivity. }
+      rewrite Hd, (Hnd _ Hd), actions_eqb_refl. reflexivity.
+    - unfold env_fault_effective in Eenv. apply orb_false_iff in Eenv as [E1 E2].
+      unfold expected_obs. cbv zeta. rewrite E2.
+      assert (Hx : match f with Some (st, _) => if reaches_v st port0 hs d then [ALogExc] else port_spec_v port0 hs d ++ []
+                   | None => port_spec_v port0 hs d ++ [] end = port_spec_v port0 hs d).
+      { destruct f as [[st e]|]; [rewrite E1|]; apply List.app_nil_r. }
+      rewrite Hx. pose proof (port_spec_v_ok port0 hs d) as H.
+      inversion H; cbn [existsb is_log is_dead orb filter negb app List.length Nat.leb];
+        rewrite actions_eqb_refl; reflexivity. }
+  unfold port_check. cbv zeta. destruct f as [[st e]|]; [|exact Hgen].
+  destruct st; try exact Hgen.
+  unfold expected_obs. rewrite reaches_v_log. reflexivity.
+Qed.
+
+(* the behaviour before the repair: a write request from source port 0 is answered (attempt), the
+   OSError is logged; the checker rejects that *)
+Theorem port_check_refuted_D22 :
+  serve_one_v pv_D22 None true true [HConst true] [0; 2] = [ASendError 2; ALogExc] /\
+  port_check None true true [HConst true] [0; 2] (serve_one_v pv_D22 None true true [HConst true] [0; 2]) <> [] /\
+  serve_one_v pcurrent None true true [HConst true] [0; 2] = [].
+Proof. vm_compute. repeat split; discriminate. Qed.
+
+(* the pre-fix behaviour in general: what request_port_unsendable describes *)
+Lemma serve_one_v_D22 f port0 sendable hs d :
+  serve_one_v pv_D22 f port0 sendable hs d = serve_one_f f (sendable && negb port0) hs d.
+Proof. unfold serve_one_v, process_request_v, serve_one_f. cbn [replies_to_port0 pv_D22 negb]. now rewrite andb_false_r. Qed.
+
+Lemma serve_one_v_ordinary f sendable hs d : serve_one_v pcurrent f false sendable hs d = serve_one_f f sendable hs d.
+Proof. unfold serve_one_v, process_request_v, serve_one_f. cbn [andb negb]. now rewrite andb_true_r. Qed.
+
+(* an injected fault under the current code, any source *)
+Theorem request_port_faulted_v st e port0 sendable hs d :
+  serve_one_v pcurrent (Some (st, e)) port0 sendable hs d =
+  if reaches_v st port0 hs d then [ALogExc] else serve_one_v pcurrent None port0 sendable hs d.
+Proof. rewrite !serve_one_v_spec. reflexivity. Qed.
+
+Theorem run_loop_v_narrow_catch_refuted :
+  exists hs reqs,
+    (length (run_loop_v pcurrent only_oserror_valueerror hs reqs) < length reqs)%nat /\
+    length (run_loop_v pcurrent catch_all hs reqs) = length reqs.
+Proof.
+  exists [HConst true],
+    [(Some (SThreadStart, Injected 0), (false, true), encode_rrq (lit "f") (lit "octet") []);
+     (None, (false, true), encode_rrq (lit "f") (lit "octet") [])].
+  split; vm_compute; lia.
+Qed.
+
+(* a loop that leaves on OSError is ended by one reply that the environment does not let through *)
+Theorem run_loop_v_break_refuted :
+  exists hs reqs,
+    (length (run_loop_v pcurrent break_on_oserror_policy hs reqs) < length reqs)%nat /\
+    length (run_loop_v pcurrent catch_all hs reqs) = length reqs.
+Proof.
+  exists [HConst true], [(None, (false, false), [0; 2]); (None, (false, true), [0; 2])]. split; vm_compute; lia.
+Qed.
